@@ -12,14 +12,14 @@ import Mathlib.Tactic.LinearCombination
 -/
 namespace PPLV.Lattice.Red
 
-theorem dimsDown_succ (m : Nat) : dimsDown (m + 1) = m :: dimsDown m := by
+theorem gc_dimsDown_succ (m : Nat) : dimsDown (m + 1) = m :: dimsDown m := by
   simp [dimsDown, List.range_succ]
 
 theorem foldl_dimsDown_inv {σ : Type} (f : σ → Nat → σ) (I : Nat → σ → Prop) :
     ∀ (m : Nat) (s : σ), I m s → (∀ d s, d < m → I (d + 1) s → I d (f s d)) → I 0 ((dimsDown m).foldl f s)
   | 0, s, h0, _ => by simpa [dimsDown] using h0
   | m + 1, s, h0, hstep => by
-    rw [dimsDown_succ, List.foldl_cons]
+    rw [gc_dimsDown_succ, List.foldl_cons]
     exact foldl_dimsDown_inv f I m (f s m) (hstep m s (by omega) h0) (fun d s hd h => hstep d s (by omega) h)
 
 /-! ### counters -/
@@ -183,14 +183,14 @@ theorem rowAt_mapIdx {R : Type} [Inhabited R] (l : List R) (f : Nat → R → R)
     rowAt (l.mapIdx f) i = f i (rowAt l i) := by
   simp [rowAt, List.getElem?_mapIdx, h]
 
-theorem rowAt_map {R : Type} [Inhabited R] (l : List R) (f : R → R) (i : Nat) (h : i < l.length) :
+theorem gc_rowAt_map {R : Type} [Inhabited R] (l : List R) (f : R → R) (i : Nat) (h : i < l.length) :
     rowAt (l.map f) i = f (rowAt l i) := by
   simp [rowAt, h]
 
 theorem rowAt_of_length_le {R : Type} [Inhabited R] (l : List R) (i : Nat) (h : l.length ≤ i) : rowAt l i = default := by
   simp [rowAt, List.getElem?_eq_none h]
 
-theorem mem_iff_rowAt {R : Type} [Inhabited R] (l : List R) (r : R) : r ∈ l ↔ ∃ i, i < l.length ∧ rowAt l i = r := by
+theorem gc_mem_iff_rowAt {R : Type} [Inhabited R] (l : List R) (r : R) : r ∈ l ↔ ∃ i, i < l.length ∧ rowAt l i = r := by
   constructor
   · intro h
     obtain ⟨i, hi, rfl⟩ := List.getElem_of_mem h
